@@ -63,7 +63,7 @@ PROPS = {
     ),
     'C10': dict(
         engine='drvsim', level='exploration', finite=True,
-        quick=dict(count=41224), thorough=dict(count=41224),
+        quick=dict(count=41228), thorough=dict(count=41228),
         shrink_paths=[],
         rule='complete enumeration: every integer solve code -200..999 x {primal, dual, objective value present/absent} (8 patterns) x {-AMPL, wantsol=1} '
              'answered by the solver stub in a whole driver run on a tiny LP (even codes) / MIP (odd codes) with alg:rays=3 alg:iisfind=1 alg:kappa=2, '
